@@ -20,8 +20,15 @@ DDEATH hand-overs are accepted. The wall clock read by the cooldown is the state
 went backwards. Device names are opaque tokens (`Nat`), metric names are their UTF-8 bytes, the
 alias hash is a parameter (`St.alias`). `u8` wrap-arounds are explicit `% 256`.
 
-`MessageMetric::try_from` is modelled as the property demands (D8 repaired: `is_null = true`
-without a value is delivered as "no value", `is_null = false` without a value is malformed).
+`MessageMetric::try_from`: `is_null = true` without a value is delivered as "no value",
+`is_null = false` without a value is malformed (fix 9f682ec).
+
+Node births are numbered (fixes c9658b2, 9cddb19): `epoch` is bumped by `start_birth` (u64,
+wrapping); the birth notification to the devices carries the epoch of the node birth it belongs
+to and a device acts on it only while that epoch is current; a device remembers the epoch it
+was birthed in and hands over a DDEATH only while that epoch is current. A device removed from
+the map leaves `devs` in the same step, so `DeviceState.removed` needs no field here. The
+`stopping` flag (6328f71) concerns `cancel`, which is not a stimulus of this component.
 
 Imports only other models (linked into `srad_model`).
 -/
@@ -63,7 +70,7 @@ structure Payload where
 
 /-! ### metric.rs -/
 
-/-- `impl TryFrom<Metric> for MessageMetric` (`none` = `Err(())`), with the null test repaired -/
+/-- `impl TryFrom<Metric> for MessageMetric` (`none` = `Err(())`)  (fix 9f682ec) -/
 def toMessageMetric (m : Metric) : Option MessageMetric :=
   let id? : Option MetricId :=
     match m.alias with
@@ -197,6 +204,7 @@ structure Dev where
   name : Nat
   enabled : Bool := false
   flag : Bool := false            -- `DeviceState.birthed`
+  birthEpoch : Nat := 0           -- `DeviceState.birth_epoch`: node birth of the accepted DBIRTH
   mgr : Mgr := {}
   deriving DecidableEq, Repr
 
@@ -219,6 +227,7 @@ structure St where
   birthed : Bool := false
   dead : Bool := false            -- the node task panicked
   seq : Nat := 0
+  epoch : Nat := 0                -- `EoNStateInner.birth_epoch`
   bdSeq : Nat := 0
   last : Nat := 0                 -- `last_node_rebirth_request` (ms)
   wall : Nat := 0                 -- the wall clock (ms)
@@ -229,41 +238,46 @@ structure St where
   queue : List NodeIn := []       -- node inputs waiting while the task is blocked
   alias : Option Nat → Bytes → Nat := fun _ _ => 0
 
-/-- `EoNState::get_next_seq` -/
-def getNextSeq (online birthed : Bool) (seq : Nat) : Option Nat :=
+/-- `EoNState::get_next_seq_and_epoch(required)`: `cur` is the current birth epoch (which is
+also the epoch returned on success) -/
+def getNextSeq (online birthed : Bool) (cur : Nat) (required : Option Nat) (seq : Nat) : Option Nat :=
   if !online then none
   else if !birthed then none
-  else some ((seq + 1) % 256)
+  else
+    match required with
+    | some e => if e ≠ cur then none else some ((seq + 1) % 256)
+    | none => some ((seq + 1) % 256)
 
 /-! ### device.rs -/
 
 inductive DevMsg where
-  | birth (ty : BirthTy)       -- NodeStateMessage::Birth
+  | birth (ty : BirthTy) (epoch : Nat)   -- NodeStateMessage::Birth(ty, registry, node_birth_epoch)
   | death                      -- NodeStateMessage::Death
   | removed                    -- NodeStateMessage::Removed
   | enable | disable           -- DeviceHandleRequest
   | cmd (kind : MsgKind) (p : Payload)
   deriving DecidableEq, Repr
 
-/-- `Device::birth` -/
-def devBirth (alias : Bytes → Nat) (online birthed : Bool) (seq : Nat) (d : Dev) (ty : BirthTy) :
-    Nat × Dev × List Eff :=
+/-- `Device::birth(ty, node_birth_epoch)` (the DBIRTH hand-over is accepted) -/
+def devBirth (alias : Bytes → Nat) (online birthed : Bool) (cur : Nat) (seq : Nat) (d : Dev)
+    (ty : BirthTy) (nodeEpoch : Option Nat) : Nat × Dev × List Eff :=
   if !d.enabled then (seq, d, [])
   else if ty == .birth && d.flag then (seq, d, [])
   else
-    match getNextSeq online birthed seq with
+    match getNextSeq online birthed cur nodeEpoch seq with
     | none => (seq, d, [])
     | some s =>
-      (s, { d with flag := true, mgr := d.mgr.initialiseBirth alias }, [.dbirth d.name s])
+      (s, { d with flag := true, birthEpoch := cur, mgr := d.mgr.initialiseBirth alias },
+        [.dbirth d.name s])
 
 /-- `Device::death` -/
-def devDeath (online birthed : Bool) (seq : Nat) (d : Dev) (publish : Bool) :
+def devDeath (online birthed : Bool) (cur : Nat) (seq : Nat) (d : Dev) (publish : Bool) :
     Nat × Dev × List Eff :=
   if !d.flag then (seq, d, [])
   else
     let d' := { d with flag := false }
     if publish then
-      match getNextSeq online birthed seq with
+      match getNextSeq online birthed cur (some d.birthEpoch) seq with
       | none => (seq, d', [])
       | some s => (s, d', [.ddeath d.name s])
     else (seq, d', [])
@@ -277,32 +291,32 @@ def devCmd (d : Dev) (kind : MsgKind) (p : Payload) : List Eff :=
     | some t => deliver (some d.name) d.mgr t p.metrics
 
 /-- one iteration of `Device::run` -/
-def devHandle (alias : Bytes → Nat) (online birthed : Bool) (seq : Nat) (d : Dev) :
+def devHandle (alias : Bytes → Nat) (online birthed : Bool) (cur : Nat) (seq : Nat) (d : Dev) :
     DevMsg → Nat × Dev × List Eff
-  | .birth ty => devBirth alias online birthed seq d ty
-  | .death => devDeath online birthed seq d false
-  | .removed => devDeath online birthed seq d true
-  | .enable => devBirth alias online birthed seq { d with enabled := true } .birth
-  | .disable => devDeath online birthed seq { d with enabled := false } true
+  | .birth ty e => devBirth alias online birthed cur seq d ty (some e)
+  | .death => devDeath online birthed cur seq d false
+  | .removed => devDeath online birthed cur seq d true
+  | .enable => devBirth alias online birthed cur seq { d with enabled := true } .birth none
+  | .disable => devDeath online birthed cur seq { d with enabled := false } true
   | .cmd kind p => (seq, d, devCmd d kind p)
 
 /-- a device task handling everything in its channels -/
-def devRun (alias : Bytes → Nat) (online birthed : Bool) :
+def devRun (alias : Bytes → Nat) (online birthed : Bool) (cur : Nat) :
     Nat → Dev → List DevMsg → Nat × Dev × List Eff
   | seq, d, [] => (seq, d, [])
   | seq, d, m :: t =>
-    let r1 := devHandle alias online birthed seq d m
-    let r2 := devRun alias online birthed r1.1 r1.2.1 t
+    let r1 := devHandle alias online birthed cur seq d m
+    let r2 := devRun alias online birthed cur r1.1 r1.2.1 t
     (r2.1, r2.2.1, r1.2.2 ++ r2.2.2)
 
 /-- every registered device handles the broadcast `bc` of the node task, one device task
 after the other in the order of `devs` -/
-def devPhase (alias : Option Nat → Bytes → Nat) (online birthed : Bool) (bc : List DevMsg) :
-    Nat → List Dev → Nat × List Dev × List Eff
+def devPhase (alias : Option Nat → Bytes → Nat) (online birthed : Bool) (cur : Nat)
+    (bc : List DevMsg) : Nat → List Dev → Nat × List Dev × List Eff
   | seq, [] => (seq, [], [])
   | seq, d :: ds =>
-    let r1 := devRun (alias (some d.name)) online birthed seq d bc
-    let r2 := devPhase alias online birthed bc r1.1 ds
+    let r1 := devRun (alias (some d.name)) online birthed cur seq d bc
+    let r2 := devPhase alias online birthed cur bc r1.1 ds
     (r2.1, r1.2.1 :: r2.2.1, r1.2.2 ++ r2.2.2)
 
 /-! ### node.rs -/
@@ -317,12 +331,15 @@ structure NodeOut where
 
 /-- `Node::birth` (= `node_birth` + `birth_devices`); `setLast` is threaded for a parked rebirth -/
 def nodeBirth (decs : List Dec) (ty : BirthTy) (setLast : Option Nat) (st : St) : NodeOut :=
-  -- start_birth; generate_birth_payload calls the manager's initialise_birth
-  let st1 : St := { st with birthed := false, seq := 0,
+  -- start_birth (seq 0, next epoch); generate_birth_payload calls the manager's initialise_birth
+  let ep := (st.epoch + 1) % 18446744073709551616
+  let st1 : St := { st with birthed := false, seq := 0, epoch := ep,
                             nodeMgr := st.nodeMgr.initialiseBirth (st.alias none) }
   let e := [Eff.nbirth 0 st.bdSeq]
   match decs.head?.getD .accept with
-  | .accept => { st := { st1 with birthed := true }, effs := e, bc := [.birth ty], decs := decs.tail }
+  | .accept =>
+    -- birth_completed returns the epoch; birth_devices sends it along
+    { st := { st1 with birthed := true }, effs := e, bc := [.birth ty ep], decs := decs.tail }
   | .reject => { st := st1, effs := e, bc := [], decs := decs.tail }
   | .park => { st := { st1 with parked := some { ty := ty, setLast := setLast } }, effs := e, bc := [],
                decs := decs.tail }
@@ -397,7 +414,9 @@ def resolveParked (decs : List Dec) (ok : Bool) (st : St) : NodeOut :=
       | some now => { st1 with last := now }
       | none => st1
     let r := nodeRun decs st2 st.queue
-    { r with bc := (if ok then [DevMsg.birth pk.ty] else []) ++ r.bc }
+    -- `birth_completed()` returns the epoch of the birth that was parked (still current: the
+    -- task was blocked)
+    { r with bc := (if ok then [DevMsg.birth pk.ty st.epoch] else []) ++ r.bc }
 
 /-- stimuli of one step -/
 inductive Op where
@@ -410,32 +429,32 @@ inductive Op where
 
 /-- run the device tasks on the broadcast of a finished node phase -/
 def finish (r : NodeOut) : St × List Eff :=
-  let p := devPhase r.st.alias r.st.online r.st.birthed r.bc r.st.seq r.st.devs
+  let p := devPhase r.st.alias r.st.online r.st.birthed r.st.epoch r.bc r.st.seq r.st.devs
   ({ r.st with seq := p.1, devs := p.2.1 }, r.effs ++ p.2.2)
 
 /-- a message addressed to device `d` only (`handle_device_message`, device handle requests):
 unknown names are dropped -/
-def devOne (alias : Option Nat → Bytes → Nat) (online birthed : Bool) (name : Nat) (m : DevMsg) :
-    Nat → List Dev → Nat × List Dev × List Eff
+def devOne (alias : Option Nat → Bytes → Nat) (online birthed : Bool) (cur : Nat) (name : Nat)
+    (m : DevMsg) : Nat → List Dev → Nat × List Dev × List Eff
   | seq, [] => (seq, [], [])
   | seq, d :: ds =>
     if d.name = name then
-      let r := devHandle (alias (some d.name)) online birthed seq d m
+      let r := devHandle (alias (some d.name)) online birthed cur seq d m
       (r.1, r.2.1 :: ds, r.2.2)
     else
-      let r := devOne alias online birthed name m seq ds
+      let r := devOne alias online birthed cur name m seq ds
       (r.1, d :: r.2.1, r.2.2)
 
 /-- `DeviceMap::remove_device`: the entry leaves the map, its task handles `Removed` and ends -/
-def devRemove (alias : Option Nat → Bytes → Nat) (online birthed : Bool) (name : Nat) :
+def devRemove (alias : Option Nat → Bytes → Nat) (online birthed : Bool) (cur : Nat) (name : Nat) :
     Nat → List Dev → Nat × List Dev × List Eff
   | seq, [] => (seq, [], [])
   | seq, d :: ds =>
     if d.name = name then
-      let r := devHandle (alias (some d.name)) online birthed seq d .removed
+      let r := devHandle (alias (some d.name)) online birthed cur seq d .removed
       (r.1, ds, r.2.2)
     else
-      let r := devRemove alias online birthed name seq ds
+      let r := devRemove alias online birthed cur name seq ds
       (r.1, d :: r.2.1, r.2.2)
 
 def regDev (name : Nat) (m : SMetric) : List Dev → List Dev
@@ -446,10 +465,10 @@ def step (decs : List Dec) (st : St) : Op → St × List Eff
   | .node i => finish (nodeRun decs st [i])
   | .resolve ok => finish (resolveParked decs ok st)
   | .dev d m =>
-    let r := devOne st.alias st.online st.birthed d m st.seq st.devs
+    let r := devOne st.alias st.online st.birthed st.epoch d m st.seq st.devs
     ({ st with seq := r.1, devs := r.2.1 }, r.2.2)
   | .unreg d =>
-    let r := devRemove st.alias st.online st.birthed d st.seq st.devs
+    let r := devRemove st.alias st.online st.birthed st.epoch d st.seq st.devs
     ({ st with seq := r.1, devs := r.2.1 }, r.2.2)
   | .setWall w => ({ st with wall := w }, [])
   | .reg none m => ({ st with nodeMgr := st.nodeMgr.register m }, [])
